@@ -145,3 +145,26 @@ add('C04', level='fault_enumeration',
     min_counters={'map_failures_injected': 100, 'histories_with_injected_fault': 100, 'fault_site:large-frame': 5, 'fault_site:first-slab-of-class': 5, 'fault_site:additional-slab': 5,
                   'fault_site:copying-realloc-small-to-small': 1, 'fault_site:copying-realloc-small-to-large': 1, 'fault_site:copying-realloc-large-to-larger': 1},
     assumptions=SLAB_ASSUME + ['a fault is Policy::map returning 0; the history continues with the failed allocation omitted from the model'])
+
+# ---------------------------------------------------------------------------------------------- C19
+add('C19',
+    level='exploration',
+    rule='printf: full directive grid {d,i,u,o,x,X,c,s,p,%} x flag subsets x width x precision x length x boundary values + random multi-directive and positional formats, byte-compared with glibc vsnprintf (C locale) through an exact-size va_list; fmt(): spec grid + random specs vs an independent interpreter of the documented grammar; stack_buffer_logger: Limit in {2,3,8,128} x lengths 0..3*Limit+2',
+    jobs=[job('format', 'c19_format.cpp', shards={'quick': 8, 'thorough': 16}, hang_is_violation=True)],
+    min_evaluations={'quick': 20000, 'thorough': 200000},
+    min_counters={'printf_directives_compared': 300000, 'fmt_specs_compared': 5000, 'logger_messages': 1000},
+    assumptions=['glibc 2.36 vsnprintf in the "C" locale is the executable reference for ISO C printf (so the \' flag has no effect); %p is compared in frigg\'s documented 0x<hex> form, which glibc also prints for non-null pointers',
+                 'fmt reference: an interpreter written from the grammar comment ([0-9]+)?(:0?[0-9]*[bcdioXx]?)? with sign before zero fill; specs it leaves undefined (width on strings, c on non-char) are not compared',
+                 'x86-64 SysV va_list layout (gp_offset=48, fp_offset=304, overflow area = exact-size heap array)'],
+    )
+
+# ---------------------------------------------------------------------------------------------- C20
+add('C20',
+    level='exploration',
+    rule='every string up to length 5-7 over reduced alphabets of the syntactically relevant characters for printf_format, fmt(), parse_arguments (4 option tables) and to_number<int8..uint64>, plus grammar-generated/mutated longer inputs, each from an exact-size buffer (printf: exact-size va_list computed by an independent tokenizer) under ASan+UBSan; stopping through frg_panic is accepted',
+    jobs=[job('parsers', 'c20_parsers.cpp', shards={'quick': 8, 'thorough': 16}, hang_is_violation=True)],
+    min_evaluations={'quick': 300000, 'thorough': 3000000},
+    min_counters={'printf_completed': 50000, 'printf_stopped_by_assertion': 10000, 'fmt_completed': 50000, 'cmdline_completed': 50000, 'cmdline_stopped_by_assertion': 100, 'to_number_value': 10000, 'to_number_null': 10000},
+    assumptions=['memory safety is observed by ASan red zones around exact-size heap buffers (inputs, option targets, positional arg_list of NL_ARGMAX entries, variadic slots) and UBSan; non-adjacent wild accesses into other live memory are not observable',
+                 'widths/precisions above 100000 are exercised in a handful of cases only (they are an output-volume question, not a parsing one)'],
+    )
